@@ -101,6 +101,21 @@ Theorem mapping_sound : forall (sid : Type) (hit : sid -> Z -> Prop) (next : sid
 Proof. exact pool_budget_sound. Qed.
 Print Assumptions mapping_sound.
 
+(* Which nodes consume budget: exactly the not-ready / marked / deleting ones among the nodes that
+   count towards the pool size. A deleting node that never initialized (or whose instance is already
+   terminated) is in neither number. *)
+Theorem disrupting_counts_counted_partial : forall (p : Z) (ns : list node),
+  disrupting p ns =
+  zlen (filter (fun x => (n_managed x && n_init x && negb (n_term x)) && (n_pool x =? p) &&
+                         (negb (n_ready x) || n_marked x || n_deleting x)) ns).
+Proof. exact disrupting_counts_counted_l. Qed.
+Print Assumptions disrupting_counts_counted_partial.
+
+Theorem disrupting_counts_all_deleting_refuted :
+  exists ns p x, In x ns /\ n_pool x = p /\ n_managed x = true /\ n_deleting x = true /\ disrupting p ns = 0.
+Proof. exact disrupting_counts_all_deleting_refuted_l. Qed.
+Print Assumptions disrupting_counts_all_deleting_refuted.
+
 (* One disrupt(method) call, for every state, method, candidate list, simulation outcome (choice),
    events during the validation delay(s) and candidate lists seen by the validator: per pool,
    nothing is selected or selected + disrupting <= every applicable active budget, evaluated in the
